@@ -129,11 +129,12 @@ class SView:
     plain integer terms, so the chunking arithmetic of the memory / flash code stays linear.  Mutable kinds are
     mutated by replacing off / ln (the holder keeps identity)."""
 
-    def __init__(self, arr, off, ln, kind):
+    def __init__(self, arr, off, ln, kind, pre=None):
         self.arr, self.off, self.ln, self.kind = arr, off, ln, kind
+        self.pre = list(pre) if pre else []      # leading items of concrete count (e.g. a packet header)
 
     def __repr__(self):
-        return 'SView(%s,%s[%s:+%s])' % (self.kind, self.arr, self.off, self.ln)
+        return 'SView(%s,%r+%s[%s:+%s])' % (self.kind, self.pre, self.arr, self.off, self.ln)
 
 
 class PDict:
